@@ -87,6 +87,14 @@ class ClassInfo:
                 return {k.arg: k.value for k in d.keywords}
         return {}
 
+    def field_names(self):
+        """annotated class-level names (the fields of a dataclass / NamedTuple)"""
+        return list(self.annots)
+
+    def field_default(self, name):
+        """the class-level value expression of a field (a literal, `field(default_factory=…)` …) or None"""
+        return self.assigns.get(name)
+
     def is_enum(self):
         return any(b in ("Enum", "IntEnum", "StrEnum", "Flag", "IntFlag") for b in self.bases)
 
